@@ -59,7 +59,7 @@ type c08Cell struct {
 var c08Cells = []c08Cell{
 	{"VARCHAR", "str"}, {"CHAR", "str"}, {"TEXT", "str"}, {"TINYTEXT", "str"}, {"JSON", "str"},
 	{"INT", "int"}, {"MEDIUMINT", "int"}, {"SMALLINT", "int"}, {"TINYINT", "int"}, {"BIGINT", "int"},
-	{"DOUBLE", "float"}, {"DECIMAL", "float"}, {"FLOAT", "float"},
+	{"DOUBLE", "float"}, {"DECIMAL", "str"}, {"FLOAT", "float"}, // DECIMAL: the text the database gives (every digit)
 	{"DATE", "time"}, {"DATETIME", "time"}, {"TIMESTAMP", "time"},
 	{"BLOB", "bytes"}, {"TINYBLOB", "bytes"}, {"MEDIUMBLOB", "bytes"}, {"VARBINARY", "bytes"}, {"BINARY", "bytes"},
 	{"LONGBLOB", "bytes"}, {"BIT", "bytes"},
